@@ -138,6 +138,12 @@ func badLiteral(r *fw.Rand, lf *gen.Leaf) (string, string) {
 			}
 			return `7:"a", 0b111 :"b"`, "map-key-repeated-in-another-spelling"
 		}
+		if t.Key().Kind() == reflect.String && t.Elem().Kind() != reflect.Struct && r.Chance(30) { // (map[string]struct{} is a set: its text is a list)
+			// an entry is key:value; a second unquoted colon inside one entry is unparsable (host:port, URLs), whatever
+			// the value type: an error, not the text after the last colon
+			lits := []string{`"a":1:2`, `"a"::1`, `"a":1:`, `a:1:2`, `"a":"1":"2"`, `"b":7,"a":1:2`}
+			return fw.Pick(r, lits), "map-entry-with-a-second-colon"
+		}
 		if t.Elem().Kind() != reflect.Int {
 			return "", ""
 		}
